@@ -171,3 +171,77 @@ Example replay_cross_task_right :
   rpm_run_with rp_step_shrink_only rpm0 witness_cross_task
     = [0; 1; 2; 3; 4; 4; 0; 1; 2; 2; 1; 0; 4; 5; 6; 2; 2; 2; 1; 0; 0; 0].
 Proof. vm_compute. auto. Qed.
+
+(* ================================================================ GOT slots of abandoned library calls (Model Part 1d) *)
+Lemma rearm_range_false : forall s n from got y, rearm_range s from n got y = false ->
+  got y = false /\ forall i, from <= i < from + N.of_nat n -> g_arr s i <> Some y.
+Proof.
+  intros s n. induction n as [|k IH]; intros from got y H; cbn [rearm_range] in H.
+  - split; [exact H|]. intros i Hi. lia.
+  - destruct (IH _ _ _ H) as [H1 H2]. unfold rearm in H1.
+    assert (Hgot : got y = false /\ g_arr s from <> Some y).
+    { destruct (g_arr s from) as [y'|] eqn:E.
+      - destruct (y =? y') eqn:Ey; [discriminate|]. split; [exact H1|]. intro C. inversion C; subst. rewrite N.eqb_refl in Ey. discriminate.
+      - split; [exact H1|discriminate]. }
+    destruct Hgot as [G1 G2]. split; [exact G1|]. intros i Hi.
+    destruct (N.eq_dec i from) as [->|Hne]; [exact G2|]. apply H2. lia.
+Qed.
+
+Lemma g_entry_inv : forall s sym, ginv s -> ginv (g_entry s sym).
+Proof.
+  intros s sym H y Hy. unfold g_entry in *. cbn [g_got g_idx g_arr] in *.
+  assert (Hc : (sym = Some y) \/ g_got s y = false).
+  { destruct sym as [y'|]; [|right; exact Hy]. destruct (y =? y') eqn:E; [left; apply N.eqb_eq in E; subst; reflexivity|right; exact Hy]. }
+  destruct Hc as [->|Hc].
+  - exists (g_idx s). split; [lia|]. rewrite N.eqb_refl. reflexivity.
+  - destruct (H y Hc) as [i [Hi Ha]]. exists i. split; [lia|].
+    destruct (i =? g_idx s) eqn:E; [apply N.eqb_eq in E; lia|exact Ha].
+Qed.
+
+Lemma g_exit_inv : forall s, 0 < g_idx s -> ginv s -> ginv (g_exit s).
+Proof.
+  intros s Hpos H y Hy. unfold g_exit in *. cbn [g_got g_idx g_arr] in *.
+  destruct (rearm_range_false s 1 (g_idx s - 1) (g_got s) y) as [H1 H2]; [cbn [rearm_range]; exact Hy|].
+  destruct (H y H1) as [i [Hi Ha]]. exists i. split; [|exact Ha].
+  destruct (N.eq_dec i (g_idx s - 1)) as [->|Hne]; [|lia].
+  exfalso. apply (H2 (g_idx s - 1)); [lia|exact Ha].
+Qed.
+
+(* after a longjmp every GOT slot of an abandoned library call - the entries from the slot the setjmp entry had up to
+   the longjmp itself - points to the hook again ... *)
+Lemma rearm_range_true : forall s n from got i y, from <= i < from + N.of_nat n -> g_arr s i = Some y ->
+  rearm_range s from n got y = true.
+Proof.
+  intros s n. induction n as [|k IH]; intros from got i y Hi Ha; [lia|]. cbn [rearm_range].
+  destruct (N.eq_dec i from) as [->|Hne].
+  - destruct (rearm_range s (from + 1) k (rearm s from got) y) eqn:E; [reflexivity|].
+    destruct (rearm_range_false _ _ _ _ _ E) as [E1 _]. unfold rearm in E1. rewrite Ha, N.eqb_refl in E1. discriminate.
+  - apply (IH (from + 1) _ i y); [lia|exact Ha].
+Qed.
+Theorem longjmp_rearms_abandoned : forall s count i y, 0 < count -> count <= g_idx s ->
+  count - 1 <= i < g_idx s -> g_arr s i = Some y -> g_got (g_longjmp first_fixed s count) y = true.
+Proof.
+  intros s count i y Hc Hle Hi Ha. unfold g_longjmp, first_fixed. cbn [g_got].
+  apply (rearm_range_true s _ (count - 1) _ i y); [|exact Ha]. rewrite N2Nat.id. lia.
+Qed.
+(* ... and no slot is left pointing past the hook without a live call that will put it back *)
+Theorem longjmp_keeps_got_invariant : forall s count, 0 < count -> count <= g_idx s -> ginv s ->
+  ginv (g_longjmp first_fixed s count).
+Proof.
+  intros s count Hc Hle H y Hy. unfold g_longjmp, first_fixed in *. cbn [g_got g_idx g_arr] in *.
+  destruct (rearm_range_false _ _ _ _ _ Hy) as [H1 H2]. rewrite N2Nat.id in H2.
+  destruct (H y H1) as [i [Hi Ha]]. exists i. split; [|exact Ha].
+  destruct (N.lt_ge_cases i (count - 1)) as [Hlt|Hge]; [exact Hlt|].
+  exfalso. apply (H2 i); [lia|exact Ha].
+Qed.
+
+(* non-vacuity and the code as found: main, sorted, [setjmp popped] qsort (first call: slot resolved), cmp, longjmp *)
+Definition witness_first_libcall : gst :=
+  g_entry (g_entry (g_entry (g_entry (g_entry {| g_arr := fun _ => None; g_idx := 0; g_got := fun _ => true |} None) None)
+                            (Some 1)) None) (Some 2).
+Example first_libcall_left_by_longjmp :
+  g_got witness_first_libcall 1 = false /\
+  g_got (g_longjmp first_fixed witness_first_libcall 3) 1 = true /\
+  g_got (g_longjmp first_legacy witness_first_libcall 3) 1 = false /\
+  g_idx (g_longjmp first_fixed witness_first_libcall 3) = 2.
+Proof. vm_compute. auto. Qed.
